@@ -84,6 +84,7 @@ package base
 //@   panics may
 //@   ensures gChkN == old(gChkN) + 1 && gChkRecv == upd(old(gChkRecv), old(gChkN), dynptr(this)) && gChkRes == upd(old(gChkRes), old(gChkN), r) && gChkBlocked == upd(old(gChkBlocked), old(gChkN), blocked(r))
 //@   ensures r != nil ==> allocated(r)
+//@   ensures blocked(r) ==> r.blockErr != nil
 //@   modifies gChkN, gChkRecv, gChkRes, gChkBlocked, all(TokenResult.status), all(TokenResult.blockErr), all(TokenResult.nanosToWait)
 
 //@ iface StatSlot.OnEntryPassed(ctx)
@@ -114,14 +115,19 @@ package base
 //@   ensures[checks-in-order] r != nil ==> (forall j Int :: c0 <= j && j < gChkN ==> sel(gChkRecv, j) == dynptr(sc.ruleChecks[j - c0]))
 //@   ensures[first-block-wins] r != nil && blocked(r) ==> gChkN > c0 && gChkN <= c0 + len(sc.ruleChecks) && r == sel(gChkRes, gChkN - 1) && (forall j Int :: c0 <= j && j < gChkN - 1 ==> !sel(gChkBlocked, j))
 //@   ensures[pass-all-consulted] r != nil && !blocked(r) ==> gChkN == c0 + len(sc.ruleChecks) && (forall j Int :: c0 <= j && j < gChkN ==> !sel(gChkBlocked, j))
-//@   ensures[result-in-context] r != nil ==> r == ctx.RuleCheckResult
+//@   ensures[result-in-context] r != nil ==> r == ctx.RuleCheckResult && (blocked(r) ==> r.blockErr != nil)
 //@   ensures[told-passed-once] r != nil && !blocked(r) ==> gPassN == a0 + len(sc.stats) && gBlkN == b0 && (forall j Int :: a0 <= j && j < gPassN ==> sel(gPassRecv, j) == dynptr(sc.stats[j - a0]))
+//@   modifies gPrepN, gPrepRecv, gChkN, gChkRecv, gChkRes, gChkBlocked, gPassN, gPassRecv, gBlkN, gBlkRecv, gBlkErr, gAdded, gConc, ctx.RuleCheckResult, ctx.err, ctx.StatNode, all(TokenResult.status), all(TokenResult.blockErr), all(TokenResult.nanosToWait)
 //@   ensures[told-blocked-once] r != nil && blocked(r) ==> gBlkN == b0 + len(sc.stats) && gPassN == a0 && (forall j Int :: b0 <= j && j < gBlkN ==> sel(gBlkRecv, j) == dynptr(sc.stats[j - b0]) && sel(gBlkErr, j) == ref(r.blockErr))
 //@   loop 1:
+//@     invariant[frame] frame(ctx.StatNode, all(TokenResult.status), all(TokenResult.blockErr), all(TokenResult.nanosToWait))
 //@     invariant gPrepN == p0 + #i && (forall j Int :: p0 <= j && j < gPrepN ==> sel(gPrepRecv, j) == dynptr(sc.statPres[j - p0]))
 //@   loop 2:
+//@     invariant[blocked-has-error] true
+//@     invariant[frame] frame(ctx.StatNode, all(TokenResult.status), all(TokenResult.blockErr), all(TokenResult.nanosToWait))
 //@     invariant gChkN == c0 + #i && (forall j Int :: c0 <= j && j < gChkN ==> sel(gChkRecv, j) == dynptr(sc.ruleChecks[j - c0]) && !sel(gChkBlocked, j))
 //@   loop 3:
+//@     invariant[frame] frame(ctx.StatNode, ctx.RuleCheckResult, all(TokenResult.status), all(TokenResult.blockErr), all(TokenResult.nanosToWait))
 //@     invariant (blocked(ruleCheckRet) ? gBlkN == b0 + #i && gPassN == a0 : gPassN == a0 + #i && gBlkN == b0)
 //@     invariant forall j Int :: a0 <= j && j < gPassN ==> sel(gPassRecv, j) == dynptr(sc.stats[j - a0])
 //@     invariant forall j Int :: b0 <= j && j < gBlkN ==> sel(gBlkRecv, j) == dynptr(sc.stats[j - b0]) && sel(gBlkErr, j) == ref(ruleCheckRet.blockErr)
@@ -170,6 +176,22 @@ package base
 //@   ensures[completion-at-most-once] gCompN == c0 || (!done0 && !wasBlocked && e.sc != nil && gCompN == c0 + len(e.sc.stats) && (forall j Int :: c0 <= j && j < gCompN ==> sel(gCompRecv, j) == dynptr(e.sc.stats[j - c0])))
 //@   ensures[blocked-no-completion] wasBlocked ==> gCompN == c0
 //@   ensures[recycled] !done0 && ctx != nil && e.sc != nil ==> ctx.Resource == nil && ctx.err == nil && dynptr(ctx.StatNode) == 0
+//@   modifies gCompN, gCompRecv, gHandlerN, gAdded, gConc, oncedone(e.exitCtl), fields(e.ctx), fields(e.ctx.Input), fields(e.ctx.RuleCheckResult)
 //@   replay base_exit_late_error@api
 //@   loop 1:
 //@     invariant[no-option-no-error] len(exitOps) == 0 ==> options.err == nil
+//@     invariant[frame] frame()
+
+// sync.Pool ownership contract for the context pool (assumed): Get hands out a context nobody else holds, as left
+// by the pool's New function or by EntryContext.Reset; only its start time is written here.
+//@ func (sc *SlotChain) GetPooledContext() ctx
+//@   assumed
+//@   ensures ctx != nil && allocated(ctx) && ctx.Input != nil && allocated(ctx.Input) && ctx.RuleCheckResult != nil && allocated(ctx.RuleCheckResult) && !blocked(ctx.RuleCheckResult)
+//@   ensures ctx.err == nil && ctx.Resource == nil && dynptr(ctx.StatNode) == 0 && ctx.startTime == clock_ms
+//@   modifies all(EntryContext.startTime)
+
+//@ func NewBlockErrorFromDeepCopy(from) r
+//@   props C16
+//@   requires from != nil
+//@   ensures[fresh-copy] r != nil && fresh(r) && r.blockType == from.blockType && r.blockMsg == from.blockMsg && r.rule == from.rule && r.snapshotValue == from.snapshotValue
+//@   modifies nothing
